@@ -77,6 +77,11 @@ def oracle(lines, trace):
         return [("c14/crash", bad)]
     fails = []
     ev, comp = timeline(lines, trace)
+    LAT, EC, NADDR = {}, {}, {}
+    for l in lines:
+        t = l.split()
+        if t[0] == "HOST":
+            LAT[int(t[1])] = int(t[2]); EC[int(t[1])] = int(t[3]); NADDR[int(t[1])] = (len(t) - 4) // 2
     prev_done = None       # completion time of the previous host-name lookup (expected)
     pending = []           # hids pending (expected), for cancel
     last_cancel = -1
